@@ -294,6 +294,22 @@ def grid(tier, seed):
                 sel = pats if tier == "thorough" else [(0, 0, 0), (0, 0, 31)] + [pats[(h + 7 * j + rc) % 27] for j in range(2)]
                 for rt, ra, rb in sel:
                     out.append((po << 26) | (rt << 21) | (ra << 16) | (rb << 11) | (xo << 1) | rc)
+    # every cell the architecture assigns (X / XO / XL / A forms): the complete 3^3 operand-field pattern x Rc x OE in both tiers, so
+    # that a class claiming one particular operand triple of an assigned cell (a "simplified mnemonic" made its own class:
+    # tw 31,0,0 = trap) is always met, not with probability 2/27
+    if tier != "thorough":
+        seen = set()
+        for w, _ in ppcref.entries():
+            po = w >> 26
+            if po in ppcref.PO:
+                continue
+            cell = (po, w & 0x7FE)
+            if cell in seen:
+                continue
+            seen.add(cell)
+            for rt, ra, rb in pats:
+                for low in (0, 1, 0x400, 0x401):
+                    out.append((po << 26) | (rt << 21) | (ra << 16) | (rb << 11) | ((w & 0x7FE) ^ (low & 0x400)) | (low & 1))
     return out
 
 
